@@ -17,7 +17,9 @@ func (eng *Engine) lemmaObligation(lp *LoadedPkg, lm *Lemma) (o *Obligation, err
 	}()
 	e := eng.newEnc(lp, nil, &FuncContract{Props: lm.Props}, 2, nil, map[string]bool{}, map[string]string{}, nil)
 	for _, u := range lm.Uses {
-		e.useLemma(strings.TrimSpace(u), nil, nil)
+		if !strings.Contains(u, "(") {
+			e.useLemma(strings.TrimSpace(u), nil, nil)
+		}
 	}
 	bound := map[string]TV{}
 	for _, p := range lm.Params {
@@ -29,6 +31,20 @@ func (eng *Engine) lemmaObligation(lp *LoadedPkg, lm *Lemma) (o *Obligation, err
 		bound[p.Name] = TV{V: c, Typ: typ}
 	}
 	ctx := &ExprCtx{e: e, st: e.entry, old: e.entry, bound: bound, pkg: lp.Pkg.Types}
+	// instantiated lemmas: uses NAME(args) over this lemma's parameters
+	for _, u := range lm.Uses {
+		if strings.Contains(u, "(") {
+			x, perr := parseCExpr(strings.TrimSpace(u))
+			if perr != nil {
+				panic(perr.Error())
+			}
+			call, ok := x.(CCall)
+			if !ok {
+				panic("uses: NAME(args) expected: " + u)
+			}
+			e.useLemma(cexprString(call.Fun), call.Args, ctx)
+		}
+	}
 	g := ctx.boolExpr(lm.Body.Expr)
 	name := lp.Pkg.Types.Name() + ".lemma/" + lm.Name
 	ob := e.s.NewObligation(Obligation{Name: name, Kind: "lemma", Fn: "lemma " + lm.Name, Goal: g, Desc: lm.Body.Text, Props: lm.Props})
